@@ -67,6 +67,8 @@ def holds(c, asg) -> bool:
         if o is None:
             raise Unbound()
         return isinstance(o, D.CLASSES[c[2]])
+    if t == "const":
+        return bool(c[1])
     if t in ("and", "&"):
         return all(holds(s, asg) for s in c[1:])
     if t in ("or", "|"):
@@ -96,6 +98,8 @@ def mentioned(c, acc=None):
                 acc.add(v[1])
     elif t == "hastype":
         acc.add(c[1])
+    elif t == "const":
+        pass
     else:
         for s in c[1:]:
             mentioned(s, acc)
@@ -177,6 +181,8 @@ def build(c, xs, neg=0, register=True):
         return not_(build(c[1], xs, neg + 1, register))
     if t == "~":
         return ~build(c[1], xs, neg + 1, register)
+    if t == "const":
+        return bool(c[1])       # a plain True / False among the operands of a conjunction
     if t == "cmp":
         node = OPS[c[1]](bval(c[2], xs), bval(c[3], xs))
     elif t == "in":
@@ -349,6 +355,10 @@ def _gen(rng, kinds, d, o):
     conj = rng.random() < 0.5
     n = 3 if (o["nary"] and rng.random() < 0.15) else 2
     subs = [_gen(rng, kinds, d - 1, o) for _ in range(n)]
+    if conj and o.get("consts", True) and rng.random() < 0.06:
+        # a plain bool among the operands of and_ (the library wraps it in a literal; or_ does not accept one)
+        subs.insert(rng.randrange(len(subs) + 1), ["const", rng.random() < 0.5])
+        return ["and"] + subs
     if n == 2 and o["spell"] and rng.random() < 0.3:
         return ["&" if conj else "|"] + subs
     return ["and" if conj else "or"] + subs
@@ -412,6 +422,8 @@ def rewrite(c, rng):
 def _reassoc(items, conj, rng):
     if len(items) == 1:
         return items[0]
+    if any(it[0] == "const" for it in items):
+        return ["and"] + items       # a plain bool is an operand of and_(...) only (`True & cond` is a TypeError in Python)
     k = rng.random()
     if k < 0.34:
         return ["and" if conj else "or"] + items            # flat n-ary: and_(a, b, c)
